@@ -77,6 +77,79 @@ theorem iterate_total (archive : Bytes) (paths : List Bytes) (sizes : List Nat) 
   have := iterateE_total paths sizes _ _ x hx
   cases x <;> simp_all [Out.map, Out.isPanic]
 
+/-- **iterator_no_runaway** — `Package::files()` drained past errors, as `collect()` / `filter_map(Result::ok)` do:
+for EVERY behaviour `step` of the payload stream (any decompressor state, any position after an error) a fresh
+iterator over a header with `n` file entries hands out at most `n` items before it answers `None`, the draining loop
+ends within `n + 1` calls, and from then on every call answers `None` without touching the stream — no unbounded
+work or memory on a damaged payload (the class of seeds C04-4 / C04-8, where `count += 1` was moved behind the
+read).  Model/FileIter.lean `next`; the in-memory stream of uncompressed payloads is `FileIter.stepMem`, whose item
+counts the correspondence run compares (`iter=<items>:<errors>`). -/
+theorem iterator_no_runaway {σ : Type} (step : σ → RpmVerif.FileIter.Step σ) (n : Nat) (s : σ) :
+    (RpmVerif.FileIter.collect step n s).length ≤ n
+    ∧ (∀ fuel, n + 1 ≤ fuel → RpmVerif.FileIter.drain step n fuel ⟨0, s⟩ = RpmVerif.FileIter.collect step n s)
+    ∧ (∀ k, ((RpmVerif.FileIter.answers step n k ⟨0, s⟩).filter Option.isSome).length ≤ n)
+    ∧ (∀ k, n ≤ k → (RpmVerif.FileIter.next step n (RpmVerif.FileIter.stateAfter step n k ⟨0, s⟩)).1 = none) := by
+  refine ⟨RpmVerif.C07.collect_le_entries step n s, fun fuel hf => ?_, fun k => ?_, fun k hk => ?_⟩
+  · unfold RpmVerif.FileIter.collect
+    rw [(RpmVerif.C07.iterate_terminates step n ⟨0, s⟩).1 fuel (by simp; omega),
+        (RpmVerif.C07.iterate_terminates step n ⟨0, s⟩).1 (n + 1) (by simp)]
+  · exact (RpmVerif.C07.items_le_entries step n ⟨0, s⟩).2 k
+  · exact (RpmVerif.C07.iterate_terminates step n ⟨0, s⟩).2 k (by simp; omega)
+
+theorem stepMem_item_total (paths : List Bytes) (sizes : List Nat) (bs : Bytes) (o : Out RpmVerif.FileIter.Item) (s' : Bytes)
+    (h : RpmVerif.FileIter.stepMem paths sizes bs = .item o s') : o.isPanic = false := by
+  have hs := RpmVerif.FileIter.stepMem_spec paths sizes bs
+  have h1 := readerNew_total sizes bs
+  cases hr : readerNew sizes bs with
+  | panic p => rw [hr] at h1; cases h1
+  | err c => rw [hr] at hs; obtain ⟨s, hs⟩ := hs; rw [hs] at h; cases h; rfl
+  | ok x =>
+    obtain ⟨e, fs, r⟩ := x
+    rw [hr] at hs; dsimp only at hs
+    have h2 := readData_total fs r
+    cases ht : isTrailer e with
+    | true => rw [ht] at hs; simp only [if_true] at hs; rw [hs] at h; cases h
+    | false =>
+      rw [ht] at hs; simp only [Bool.false_eq_true, if_false] at hs
+      cases hf : fileIndex paths e with
+      | none => rw [hf] at hs; dsimp only at hs; rw [hs] at h; cases h; rfl
+      | some i =>
+        rw [hf] at hs; dsimp only at hs
+        cases hd : readData fs r with
+        | panic p => rw [hd] at h2; cases h2
+        | err c => rw [hd] at hs; obtain ⟨s, hs⟩ := hs; rw [hs] at h; cases h; rfl
+        | ok y => obtain ⟨c, r'⟩ := y; rw [hd] at hs; dsimp only at hs; rw [hs] at h; cases h; rfl
+
+theorem drain_forall {σ : Type} (step : σ → RpmVerif.FileIter.Step σ) (P : Out RpmVerif.FileIter.Item → Prop)
+    (hP : ∀ s o s', step s = .item o s' → P o) (n fuel : Nat) (st : RpmVerif.FileIter.St σ) :
+    ∀ o ∈ RpmVerif.FileIter.drain step n fuel st, P o := by
+  induction fuel generalizing st with
+  | zero => intro o ho; simp [RpmVerif.FileIter.drain] at ho
+  | succ k ih =>
+    intro o ho
+    unfold RpmVerif.FileIter.drain RpmVerif.FileIter.next at ho
+    by_cases hc : st.count ≥ n
+    · simp [hc] at ho
+    · simp only [hc, if_false] at ho
+      cases hs : step st.stream with
+      | trailer s => rw [hs] at ho; simp at ho
+      | item o' s' =>
+        rw [hs] at ho
+        simp only [List.mem_cons] at ho
+        rcases ho with rfl | ho
+        · exact hP _ _ _ hs
+        · exact ih _ o ho
+
+/-- every item is a value or an error, also the items AFTER an error: the in-memory iteration never panics -/
+theorem collectMem_total (archive : Bytes) (paths : List Bytes) (sizes : List Nat) :
+    ∀ r ∈ RpmVerif.FileIter.collectMem archive paths sizes, r.isPanic = false := by
+  unfold RpmVerif.FileIter.collectMem RpmVerif.FileIter.collect
+  exact drain_forall _ _ (fun bs o s' h => stepMem_item_total paths sizes bs o s' h) _ _ _
+
+/-- a header announcing two files over the payload `ff ff`: two error items, then the end -/
+example : RpmVerif.FileIter.collectMem [255, 255] [[47, 97], [47, 98]] [1, 1] = [.err "eof", .err "eof"] := by
+  decide +kernel
+
 /-- `signature_key_ids` never panics -/
 theorem oneIssuer_total (S : SigScheme) (sig : Bytes) : (oneIssuer S sig).isPanic = false := by
   unfold oneIssuer; split
